@@ -269,20 +269,11 @@ def compiledStatic (t : Tree) (path : Bytes) : Bool := (getStatic path t.statics
 
 /-! ### registration script and the router -/
 
-/-- one registration: `r.METHOD(path)` directly or through nested groups with the given prefixes
-(outermost first), then the constraints as `RegisterRoute` hands them to the tree -/
-structure Reg where
-  method : Bytes
-  groups : List Bytes
-  path : Bytes
-  cons : List (Bytes × Nat)
-deriving DecidableEq, Repr
-
 /-- `Group.Group` / `Group.addRoute`: the three-way concatenation of prefix and path -/
 def concatPrefix (pre path : Bytes) : Bytes :=
   if pre.length = 0 then path else if path.length = 0 then pre else pre ++ path
 
-def Reg.fullPath (r : Reg) : Bytes :=
+def fullPathOf (r : Reg) : Bytes :=
   concatPrefix (r.groups.foldl concatPrefix []) r.path
 
 structure Router where
@@ -300,7 +291,7 @@ def setTree (m : Bytes) (t : Tree) : List (Bytes × Tree) → List (Bytes × Tre
 /-- `addRouteToTree`: create the method tree on first use, then insert -/
 def register (asIs : Bool) (r : Router) (rid : Nat) (g : Reg) : Router :=
   let t := (treeOf r g.method).getD Tree.empty
-  { r with trees := setTree g.method (addRouteGen asIs t g.fullPath rid g.cons) r.trees }
+  { r with trees := setTree g.method (addRouteGen asIs t (fullPathOf g) rid g.cons) r.trees }
 
 def buildFrom (asIs : Bool) (r : Router) : Nat → List Reg → Router
   | _, [] => r
